@@ -527,7 +527,17 @@ def check(ctx):
             b, st = sites[0]
             conds = rg.must_conditions(b, sequencing=False)
             from rulelib import cli_value_cond
-            if len(conds) == 1 and cli_value_cond(conds[0], name) in ("Some", "true"):
+            # (the presence test may be spelled `flag.is_some()` instead of a pattern: the same single guard)
+            via_is_some = False
+            if len(conds) == 1 and re.fullmatch(r"call Option::is_some\(\)=true", conds[0]):
+                for (a_, lab_) in rg.edge_dominators(b):
+                    o_, out_ = rg.cond_struct(a_, lab_)
+                    if o_[0] == "call" and o_[1].name == "is_some" and out_ == "true" and o_[1].args:
+                        so_ = rg.origin(o_[1].args[0])
+                        txt_ = rg.describe_origin(so_, deep=2)
+                        if cli_value_cond(txt_ + "=Some", name) == "Some":
+                            via_is_some = True
+            if len(conds) == 1 and (cli_value_cond(conds[0], name) in ("Some", "true") or via_is_some):
                 r3.ok("config.%s overridden under exactly %s" % (name, conds[0]))
             else:
                 r3.bad(V(r3.id, rg.id, "override-guard:%s:%s" % (name, ",".join(conds)),
